@@ -1385,17 +1385,16 @@ func ruleLineComplete(c *Ctx) {
 								ok, why = true, "behind a line-feed edge"
 							}
 						}
-						// (b) k+1 < len(buf)
-						if bo.Op == token.LSS && gi == 0 {
-							if cl, isLen := isBuiltinCall(bo.Y, "len"); isLen {
-								if _, isBuf := isLoadOfField(cl.Call.Args[0], "BlockParser", "buf"); isBuf {
-									if add, isAdd := bo.X.(*ssa.BinOp); isAdd && add.Op == token.ADD {
-										if one, isOne := constInt(add.Y); isOne && one >= 1 {
-											ok, why = true, "behind the look-ahead-available edge"
-										}
-									}
-								}
+						// (b) k+1 < len(buf), in any spelling: k < len(buf)-1, len(buf) > k+1, the false edge of k+1 >= len(buf), ...
+						if m, isLA := strictlyBelowLen(iff, gi, func(v ssa.Value) bool {
+							cl, isLen := isBuiltinCall(v, "len")
+							if !isLen {
+								return false
 							}
+							_, isBuf := isLoadOfField(cl.Call.Args[0], "BlockParser", "buf")
+							return isBuf
+						}); isLA && m >= 1 {
+							ok, why = true, "behind the look-ahead-available edge"
 						}
 					}
 				}
@@ -2745,13 +2744,12 @@ func lineCompleteThroughHelper(c *Ctx, fn *ssa.Function, b *ssa.BasicBlock, si i
 					}
 				}
 				// (b) k+1 < len(buffer parameter)
-				if gbo.Op == token.LSS && gi == 0 && bufParam >= 0 && bufParam < len(g.Params) {
-					if cl, isLen := isBuiltinCall(gbo.Y, "len"); isLen && cl.Call.Args[0] == ssa.Value(g.Params[bufParam]) {
-						if add, isAdd := gbo.X.(*ssa.BinOp); isAdd && add.Op == token.ADD {
-							if one, isOne := constInt(add.Y); isOne && one >= 1 {
-								ok, why = true, "behind the look-ahead-available edge"
-							}
-						}
+				if bufParam >= 0 && bufParam < len(g.Params) {
+					if m, isLA := strictlyBelowLen(iff, gi, func(v ssa.Value) bool {
+						cl, isLen := isBuiltinCall(v, "len")
+						return isLen && cl.Call.Args[0] == ssa.Value(g.Params[bufParam])
+					}); isLA && m >= 1 {
+						ok, why = true, "behind the look-ahead-available edge"
 					}
 				}
 			}
@@ -2799,4 +2797,57 @@ func wideWhitespaceClassifier(p *Program, f *ssa.Function) bool {
 		}
 	}
 	return false
+}
+
+// strictlyBelowLen: the edge gi of iff establishes V + m < L for a term L accepted by isLen (constants on either side
+// folded into m); returns m. Any spelling: V+1 < L, V < L-1, L > V+1, L-1 > V, the false edges of V+1 >= L / L <= V+1, and
+// the non-strict forms with m one less.
+func strictlyBelowLen(iff *ssa.If, gi int, isLen func(ssa.Value) bool) (int64, bool) {
+	neg := isNegated(iff.Cond)
+	bo, ok := stripNot(iff.Cond).(*ssa.BinOp)
+	if !ok {
+		return 0, false
+	}
+	op := bo.Op
+	taken := gi == 0
+	if neg {
+		taken = !taken
+	}
+	if !taken {
+		switch op {
+		case token.LSS:
+			op = token.GEQ
+		case token.LEQ:
+			op = token.GTR
+		case token.GTR:
+			op = token.LEQ
+		case token.GEQ:
+			op = token.LSS
+		default:
+			return 0, false
+		}
+	}
+	x, y := bo.X, bo.Y
+	switch op {
+	case token.GTR: // x > y  ==  y < x
+		x, y, op = y, x, token.LSS
+	case token.GEQ:
+		x, y, op = y, x, token.LEQ
+	}
+	if op != token.LSS && op != token.LEQ {
+		return 0, false
+	}
+	xb, xk := linTerm(x)
+	yb, yk := linTerm(y)
+	if !isLen(yb) {
+		return 0, false
+	}
+	if _, isC := xb.(*ssa.Const); isC {
+		return 0, false
+	}
+	m := xk - yk
+	if op == token.LEQ {
+		m--
+	}
+	return m, true
 }
